@@ -74,7 +74,9 @@ NAME_PATTERNS = ["x", "*.txt", "f?", "[fx]*", "{x,y}.txt", "X", "*.LOG", "\\x"]
 PATH_PATTERNS = ["r/**/x", "r/d1/*", "r/**/*.txt", "r/v.2/**", "r/ż/b*/x", "r/a.1*/x", "r/d-1/**", "r/v-2/**/x",
                  "r/*/x", "**/sub/*", "r/x+y(1)/*"]
 EXCLUDE_PATTERNS = ["r/d1/**", "**/x.txt", "r/v", "r/d1", "**/d2/**", "r/ż/**", "r/a", "r/sub/**/*.log"]
-REGEX_PATTERNS = [".*/x", ".*\\.txt", ".*/d1/.*", ".*/v\\.2/.*", ".*/[ab]/.*"]
+REGEX_PATTERNS = [".*/x", ".*\\.txt", ".*/d1/.*", ".*/v\\.2/.*", ".*/[ab]/.*",
+                  # alternation at the top level of the expression (the whole path must match one of the branches)
+                  ".*/x|.*\\.txt", ".*/d1/.*|.*/v\\.2/.*", "@RETREE@/r/d1/.*|@RETREE@/r/a/.*", "@RETREE@/r/a/.*|.*/x"]
 
 
 # --------------------------------------------------------------------------- reference glob (documented semantics)
@@ -126,6 +128,7 @@ class Sel:
             else:
                 rx = glob_to_re(p)
                 is_abs = p.startswith("/") or p.startswith("**")
+            rx = "(?:" + rx + ")"      # a top-level alternation belongs to the pattern, not to the anchoring
             if ic:
                 rx = "(?i:" + rx + ")"
             if anchor and not is_abs:
@@ -359,6 +362,7 @@ def pattern_options():
         out.append(("regex_path", {"path": [p], "regex": True}, ""))
         out.append(("regex_exclude", {"exclude": [p], "regex": True}, ""))
     out.append(("regex_name", {"name": ["[fx].*"], "regex": True}, ""))
+    out.append(("regex_name", {"name": ["x|.*\\.txt"], "regex": True}, ""))
     out.append(("two_names", {"name": ["x", "*.txt"]}, ""))
     out.append(("path_and_exclude", {"path": ["r/**"], "exclude": ["**/x"]}, ""))
     return out
@@ -495,7 +499,7 @@ def evaluate(case):
             o = dict(o)
             for k in ("name", "path", "exclude"):
                 if o.get(k):
-                    o[k] = [p.replace("@TREE@", sc.tree) for p in o[k]]
+                    o[k] = [p.replace("@TREE@", sc.tree).replace("@RETREE@", re.escape(sc.tree)) for p in o[k]]
             must, dontcare, attempts = ref_scan(cwd, roots, o)
             if case.get("stdin"):
                 args = ["group", "--rf-over", "0"] + opt_args(o, sc.tree) + ["--stdin", "-f", "json"]
